@@ -116,6 +116,10 @@ fn outline_ptrace_syscall(pid: Pid) -> (r: Result<(), DbgError>) { unimplemented
 fn outline_diverge() ensures false, { unimplemented!() }
 
 pub uninterp spec fn quiet(s: Signal) -> bool;
+pub uninterp spec fn transparent(s: Signal) -> bool;
+/// `TRANSPARENT_SIGNALS.contains(&signal)`; the two tables are disjoint (Kani unit C10.tables: QUIET = {ALRM, URG, CHLD, IO, VTALRM, PROF}, TRANSPARENT = {INT})
+#[verifier::external_body]
+fn outline_is_transparent(signal: &Signal) -> (r: bool) ensures r == transparent(*signal), r ==> !quiet(*signal), { unimplemented!() }
 /// `QUIET_SIGNALS.contains(&signal)`; the table itself is proved by the Kani unit C10.tables
 #[verifier::external_body]
 fn outline_is_quiet(signal: &Signal) -> (r: bool) ensures r == quiet(*signal), { unimplemented!() }
@@ -185,7 +189,8 @@ impl Tracer {
 //@   outline O_btype: `mb_brkpt.map(|b| b.r#type())` => `outline_brkpt_type(mb_brkpt)`
 //@   outline O_syscall: `sys::ptrace::syscall(tracee.pid, None).map_err(Ptrace)?` => `outline_ptrace_syscall(tracee.pid)?`
 //@   outline O_unreach: `unreachable!($m)` => `outline_diverge()`
-//@   outline O_quiet: `QUIET_SIGNALS.contains(&signal)` => `outline_is_quiet(&signal)`
+//@   outline O_quiet: `QUIET_SIGNALS.contains(&$s)` => `outline_is_quiet(&$s)`
+//@   outline O_transp: `TRANSPARENT_SIGNALS.contains(&$s)` => `outline_is_transparent(&$s)`
 //@   rewrite W_step: `self.tracee_ctl.tracee_ensure(pid).step($s)?` => `self.tracee_ctl.step_thread(pid, $s)?`
 //@   proof before `let stop = self.apply_new_status(tcx, status)?;`: let ghost q0 = self.inject_signal_queue@; let ghost a0 = self.tracee_ctl.arrived@;
 //@   proof after `let stop = self.apply_new_status(tcx, status)?;`: let added = choose|added: Seq<(Pid, Signal)>| #[trigger] (q0 + added) == self.inject_signal_queue@ && self.tracee_ctl.arrived@ == a0 + added && (quiet_stop(stop) is Some ==> added == seq![quiet_stop(stop)->Some_0] && quiet_stop(stop)->Some_0.0 == pid); lemma_add_ms(q0, added); lemma_add_ms(a0, added); assert(balanced(self)); if quiet_stop(stop) is Some { let x = quiet_stop(stop)->Some_0; assert(self.inject_signal_queue@.last() == x); lemma_drop_last_ms(self.inject_signal_queue@); lemma_push_ms(self.tracee_ctl.delivered@, x); }
